@@ -116,7 +116,9 @@ func (x *Exec) callValue(st *State, fv SVal, sig *types.Signature, args []SVal, 
 	}
 	// user-supplied function: uninterpreted, functional in its arguments
 	short := x.shortName(name)
-	x.obl(st, "nopanic/nilfunc:"+short, not(eq(x.termOf(st, fv), "nil")), "call of possibly nil func "+short, pos)
+	if !x.PanicForks {
+		x.obl(st, "nopanic/nilfunc:"+short, not(eq(x.termOf(st, fv), "nil")), "call of possibly nil func "+short, pos)
+	}
 	var res []SVal
 	var ats, asorts []string
 	for _, a := range args {
@@ -257,7 +259,7 @@ func (x *Exec) builtin(st *State, b *ssa.Builtin, c *ssa.CallCommon, args []SVal
 		}
 		ret(mkInt(q(x.D.fresh("copied", "Int"))))
 	case "close":
-		x.event(st, Event{Name: "chan.close:" + provName(args[0]), Args: args, Pos: pos})
+		x.event(st, Event{Name: "chclose:" + provName(args[0]), Args: args, Pos: pos})
 		ret()
 	case "delete":
 		if args[0].K == KMap {
